@@ -28,7 +28,7 @@ func checkC19(p *Prog, r *Report) {
 	r.floor("imported set-gate obligations", nGate, 1)
 
 	pc := runR3(p, r, r3opts{entries: append(append([]string{}, e19...), "(*Resources).At", "(*Resources).Len", "(*WrapperCollection).At", "(*WrapperCollection).Len"),
-		explicit: wrapperDelegation, delegate: wrapperSitesDelegated, assumeGet: true, getNilImpl: "", floorSites: 40, floorFns: 20})
+		explicit: wrapperDelegation, delegate: wrapperSitesDelegated, assumeGet: true, getNilImpl: "", floorSites: 30, floorFns: 20})
 
 	// ---- who writes SoftCollection.col
 	nStores := 0
